@@ -8,12 +8,13 @@ Requests (fields are single tokens; `-` = empty list, `n` = None):
 * `video nack <seq>,<seq>,…`
     reply `ok <missed>/<max_seq>/<sorted missing '.'-joined or ->;…`   (one entry per `add`)
 * `video tsmap <t>,<t>,…`                      reply `ok <mapped>,<mapped>,…`
-* `video sender <ssrc> <rtx_ssrc> <pt> <rtx_pt|n> <ts_origin> <seq0> <rtx_seq0> <op>;<op>;…`
+* `video sender <ssrc> <rtx_ssrc> <sendcodecs> <ts_origin> <seq0> <rtx_seq0> <op>;<op>;…`
+    sendcodecs = `,`-joined `<pt>:<r|m>:<apt|n>` = `parameters.codecs` of `send` (rtx or media; first = sending codec)
     op = `f:<enc_ts>:<hex>/<hex>/…`  one `_run_rtp` iteration with these payloads
          `k:<s>.<s>.…`               `_handle_rtcp_packet(NACK lost=[…])`
          `r:<s>`                     `_retransmit(s)`
     reply `ok <pkts>;<pkts>;…`, pkts = `-` or `,`-joined `<pt>.<seq>.<ts>.<ssrc>.<marker>.<hex>`
-* `video pair <the 8 sender fields> <the 5 recv fields>`   reply `ok <sender reply>#<recv reply>`
+* `video pair <the 7 sender fields> <the 5 recv fields>`   reply `ok <sender reply>#<recv reply>`
 * `video recv <codecs> <rtxmap> <rtcp_ssrc|n> <decoder 0|1> <pkt>;<pkt>;…`
     codecs = `,`-joined `<pt>:<vp8|h264|rtx|other>:<apt|n>`; rtxmap = `-` or `,`-joined `<rtx_ssrc>:<ssrc>`
     pkt = `<pt>.<seq>.<ts>.<ssrc>.<marker>.<hex>`
@@ -131,12 +132,23 @@ def recvRun (cfg : RecvCfg) : Receiver → List RtpPacket → List String → Ou
       recvRun cfg o.r ps (((if o.fb.isEmpty then "-" else "+".intercalate (o.fb.map showFb)) ++ "|" ++ showItem o.item) :: acc)
     | .valueError => .valueError | .crash k => .crash k | .hang => .hang
 
-def senderReq (ssrc rtxSsrc pt rtxPt tsO seq0 rtxSeq0 ops : String) : Option String :=
-  match parseNat? ssrc, parseNat? rtxSsrc, parseNat? pt, parseOptNat? rtxPt, parseInt? tsO, parseInt? seq0,
+def parseSendCodec (s : String) : Option SendCodec :=
+  match s.splitOn ":" with
+  | [pt, k, apt] =>
+    match parseNat? pt, (if k = "r" then some true else if k = "m" then some false else none), parseOptNat? apt with
+    | some pt, some k, some apt => some ⟨pt, k, apt⟩
+    | _, _, _ => none
+  | _ => none
+
+/-- `codecs` = `,`-joined `<pt>:<r|m>:<apt|n>` (the list handed to `send`; the sending codec is the first). -/
+def senderReq (ssrc rtxSsrc codecs tsO seq0 rtxSeq0 ops : String) : Option (Outcome String) :=
+  match parseNat? ssrc, parseNat? rtxSsrc, (splitList "," codecs).mapM parseSendCodec, parseInt? tsO, parseInt? seq0,
     parseInt? rtxSeq0, (splitList ";" ops).mapM parseSOp with
-  | some ssrc, some rtxSsrc, some pt, some rtxPt, some tsO, some seq0, some rtxSeq0, some ops =>
-    some (";".intercalate (senderRun ⟨ssrc, rtxSsrc, pt, rtxPt, tsO⟩ ⟨seq0, rtxSeq0, []⟩ ops []))
-  | _, _, _, _, _, _, _, _ => none
+  | some ssrc, some rtxSsrc, some codecs, some tsO, some seq0, some rtxSeq0, some ops =>
+    some (match SenderCfg.ofCodecs ssrc rtxSsrc codecs tsO with
+      | .ok cfg => .ok (";".intercalate (senderRun cfg ⟨seq0, rtxSeq0, []⟩ ops []))
+      | .valueError => .valueError | .crash k => .crash k | .hang => .hang)
+  | _, _, _, _, _, _, _ => none
 
 def recvReq (codecs rtxmap rtcpSsrc dec pkts : String) : Option (Outcome String) :=
   match (splitList "," codecs).mapM parseCodec, (splitList "," rtxmap).mapM parsePair, parseOptNat? rtcpSsrc,
@@ -159,17 +171,18 @@ def handleTop : List String → String
     match (splitList "," ts).mapM parseInt? with
     | some l => (tsRun TsMap.init l []).tag fun outs => showInts "," outs
     | none => "bad-op"
-  | ["sender", ssrc, rtxSsrc, pt, rtxPt, tsO, seq0, rtxSeq0, ops] =>
-    match senderReq ssrc rtxSsrc pt rtxPt tsO seq0 rtxSeq0 ops with
-    | some r => "ok " ++ r
+  | ["sender", ssrc, rtxSsrc, codecs, tsO, seq0, rtxSeq0, ops] =>
+    match senderReq ssrc rtxSsrc codecs tsO seq0 rtxSeq0 ops with
+    | some r => r.tag id
     | none => "bad-op"
   | ["recv", codecs, rtxmap, rtcpSsrc, dec, pkts] =>
     match recvReq codecs rtxmap rtcpSsrc dec pkts with
     | some r => r.tag id
     | none => "bad-op"
-  | ["pair", ssrc, rtxSsrc, pt, rtxPt, tsO, seq0, rtxSeq0, ops, codecs, rtxmap, rtcpSsrc, dec, pkts] =>
-    match senderReq ssrc rtxSsrc pt rtxPt tsO seq0 rtxSeq0 ops, recvReq codecs rtxmap rtcpSsrc dec pkts with
-    | some s, some r => r.tag fun x => s ++ "#" ++ x
+  | ["pair", ssrc, rtxSsrc, scodecs, tsO, seq0, rtxSeq0, ops, codecs, rtxmap, rtcpSsrc, dec, pkts] =>
+    match senderReq ssrc rtxSsrc scodecs tsO seq0 rtxSeq0 ops, recvReq codecs rtxmap rtcpSsrc dec pkts with
+    | some (.ok s), some r => r.tag fun x => s ++ "#" ++ x
+    | some s, some _ => s.tag id
     | _, _ => "bad-op"
   | _ => "bad-op"
 
